@@ -151,10 +151,27 @@ def sortGroups (ms : List V) : List (List V) :=
   | .rel names rows => (List.range names.length).map (fun i => rows.map (fun r => r.getD i (V.num 0)))
   | .other => [ms]
 
+/- every value inside a value (itself, attribute values, members): `Less` on two composites of the same kind
+descends into corresponding parts -/
+mutual
+def descendants : V → List V
+  | .num n => [.num n]
+  | .tup as => .tup as :: descendantsAttrs as
+  | .set xs => .set xs :: descendantsList xs
+def descendantsAttrs : List (String × V) → List V
+  | [] => []
+  | (_, v) :: r => descendants v ++ descendantsAttrs r
+def descendantsList : List V → List V
+  | [] => []
+  | v :: r => descendants v ++ descendantsList r
+end
+
 def groupTrap (g : List V) : Bool :=
-  (g.any isEmptyOrTrue && g.any isTupV) ||
-  (let cs := g.filterMap strContent; cs.eraseDups.length != cs.length) ||
-  ((g.filter isRelV).length ≥ 2)
+  g.length ≥ 2 &&
+  (let ds := descendantsList g
+   (ds.any isEmptyOrTrue && ds.any isTupV) ||
+   (let cs := ds.filterMap strContent; cs.eraseDups.length != cs.length) ||
+   ((ds.filter isRelV).length ≥ 2))
 
 mutual
 def lessTrap : V → Bool
